@@ -19,6 +19,8 @@ def check_C09(tier, seed):
     n_rand = 200 if quick else 1000
     scripts = [scen_c09.routing_script(r, i, s) for i, s in enumerate(props.sample(seqs, n_seq, r))]
     scripts += [scen_c09.routing_random(r, len(scripts) + i) for i in range(n_rand)]
+    # several connections of one client endpoint to the same server: what is removed for one must not take a sibling's
+    scripts += [scen_c09.routing_siblings(r, len(scripts) + i) for i in range(150 if quick else 1500)]
     mcs = [("Routing.tla", "MC_Routing.cfg" if quick else "MC_Routing4.cfg")]
     return props.generic("C09", tier, seed, mcs, scripts, VALS, ASSUME,
                          extra_cov={"operation_sequences_enumerated_by_tlc": len(seqs), "generator_states": gst})
